@@ -1360,7 +1360,7 @@ impl<'ctx> ByteCompiler<'ctx> {
                 });
             }
             None => {
-                self.compile_expr_operand(binary.lhs(), |compiler, lhs| {
+                self.compile_expr_operand_before(binary.lhs(), binary.rhs(), |compiler, lhs| {
                     compiler.compile_expr_operand(binary.rhs(), |compiler, rhs| {
                         label_index = compiler.next_opcode_location();
                         emit_fn(&mut compiler.bytecode, Self::DUMMY_ADDRESS, lhs, rhs);
@@ -1832,6 +1832,29 @@ impl<'ctx> ByteCompiler<'ctx> {
         let op = reg.variable();
         inner_fn(self, op);
         self.register_allocator.dealloc(reg);
+    }
+
+    /// Like [`compile_expr_operand`](Self::compile_expr_operand), for an operand that is only
+    /// consumed after `later` has been evaluated.
+    ///
+    /// If `later` can assign to a variable, the value of a local is copied into a temporary
+    /// register instead of handing out the local's own register, so that the operand keeps
+    /// the value it had when it was evaluated (`x + (x = 5)`).
+    pub(crate) fn compile_expr_operand_before(
+        &mut self,
+        expr: &Expression,
+        later: &Expression,
+        inner_fn: impl FnOnce(&mut Self, RegisterOperand),
+    ) {
+        if matches!(expr, Expression::Identifier(_)) && contains_assignment(later) {
+            let reg = self.register_allocator.alloc();
+            self.compile_expr(expr, &reg);
+            let op = reg.variable();
+            inner_fn(self, op);
+            self.register_allocator.dealloc(reg);
+        } else {
+            self.compile_expr_operand(expr, inner_fn);
+        }
     }
 
     /// Compile a property access expression, prepending `this` to the property value in the stack.
@@ -2817,4 +2840,32 @@ impl<'ctx> ByteCompiler<'ctx> {
     ) {
         self.compile_declaration_pattern_impl(pattern, def, object);
     }
+}
+
+/// Returns `true` if evaluating `expr` can contain an assignment or update expression.
+fn contains_assignment(expr: &Expression) -> bool {
+    use boa_ast::visitor::{VisitWith, Visitor};
+    use core::ops::ControlFlow;
+
+    struct AssignmentVisitor;
+
+    impl<'ast> Visitor<'ast> for AssignmentVisitor {
+        type BreakTy = ();
+
+        fn visit_assign(
+            &mut self,
+            _: &'ast boa_ast::expression::operator::Assign,
+        ) -> ControlFlow<Self::BreakTy> {
+            ControlFlow::Break(())
+        }
+
+        fn visit_update(
+            &mut self,
+            _: &'ast boa_ast::expression::operator::Update,
+        ) -> ControlFlow<Self::BreakTy> {
+            ControlFlow::Break(())
+        }
+    }
+
+    expr.visit_with(&mut AssignmentVisitor).is_break()
 }
